@@ -11,7 +11,20 @@ VERIF = checklib.VERIF
 ALL = ["C%02d" % i for i in range(1, 21)]
 
 # property -> (technique, level text, level note, design ref)
+GW_NOTE = ("Cryptography is a parameter: theorems quantify over every hash function H and every verify predicate; binding results are "
+           "collision-or-equal. Trusted: Lean kernel, hand-written gateway model (tied to /repo by differential execution of the real "
+           "gateway in the Rust VM with real ed25519 signatures, and by extracted constants), harness, debug VM; block time monotone.")
+
 CLAIMS = {
+    "C01": ("Lean 4 theorems over all configurations/histories: accepted approval => in-window registered set + valid positional signatures reaching threshold over the 4-fold digest; completeness; registry invariant by induction over call lists; digest binding (collision-or-equal); differential run of the real gateway vs compiled model with real ed25519 proofs",
+            "Machine-checked proofs (for every hash function, verify predicate, configuration and call history) of soundness and completeness of approveMessages w.r.t. a declarative quorum spec, of the registry invariant over all histories, of digest binding, and that approvals write nothing before validation; the model is run against the real gateway crate on generated proofs (valid, boundary-weight, one-component-altered digests, misaligned, garbage) and the same spec predicates judge every implementation outcome.",
+            GW_NOTE, "DESIGN.md §3 C01"),
+    "C02": ("Lean 4 theorems: per-step transition relation (none->approved->executed only), lifted by induction to all histories; validateMessage characterisation; at-most-one true validation per id over every history; message-hash binding; differential run + lifecycle judge on the real gateway",
+            "Machine-checked proofs that every endpoint call moves each message entry only along non-existent -> approved -> executed, that existing entries are untouched by later batches (incl. duplicates and altered contents), that validateMessage returns true iff the entry is the approval binding caller/source/payload hash and then executes it, and that over every history at most one validation per id returns true; the real gateway is run against the model and judged by the same predicates.",
+            GW_NOTE, "DESIGN.md §3 C02"),
+    "C03": ("Lean 4 theorems: rotation effect (epoch+1, fresh hash, well-formed set <-> declarative wfSigners), non-operator latest+delay, operator any in-window set, out-of-window rejected for every command, registry entries permanent, operator changes only by operator/owner; differential run + judge on the real gateway",
+            "Machine-checked proofs of the exact effect and preconditions of every successful rotation, equivalence of validate_signers with the declarative well-formedness predicate, the operator/non-operator rules, rejection of out-of-window sets by both commands, permanence of registry entries over all histories, and that operatorship changes only by operator or owner; the real gateway is run against the model over rotation/time/operatorship histories.",
+            GW_NOTE, "DESIGN.md §3 C03"),
     "C06": ("Lean 4 theorem: model of raw_abi_encode = independent Solidity abi.encode spec, for all token lists; tied to source by regenerated field tables + differential run on the real abi_encode",
             "Machine-checked proof (Lean 4 kernel) that the model of the Rust encoder equals a Solidity-ABI spec for every value (all lengths, all integers < 2^256), and rejects every integer >= 2^256; the model is tied to /repo by regenerated field lists (proof obligations) and by running the real `abi_encode` of all five payload structs against the model and against the spec on generated values.",
             "Assumes: total encoding < 2^32 bytes (u32 arithmetic in abi.rs; unreachable for buffers the VM can hold); bytes32 fields are 32 bytes (Rust type). Trusted: Lean kernel, hand-written model/spec, extractor, harness, Rust debug VM managed-type API.",
